@@ -457,7 +457,8 @@ class Repo:
                         out |= self.attr_types.get((c.name, expr.attr), set())
             if not out:
                 h = ROLE_HINTS.get(expr.attr)
-                if h and h in self.classes:
+                if h and h in self.classes and not self._assigns_attr(
+                        self.expr_types(expr.value, f, local_types), expr.attr):
                     out = {h}
             return out
         if isinstance(expr, ast.Subscript) and isinstance(expr.value, ast.Attribute):
@@ -469,6 +470,29 @@ class Repo:
                 expr.func.id in self.classes:
             return {expr.func.id}
         return set()
+
+    def _assigns_attr(self, base_types, attr):
+        """does one of the classes assign self.<attr> itself (then its type is
+        whatever is assigned, not a role hint)"""
+        cache = self.__dict__.setdefault('_assign_cache', {})
+        for b in base_types:
+            c = self.classes.get(b)
+            if c is None:
+                continue
+            for k in c.mro:
+                key = (k.name, attr)
+                if key not in cache:
+                    found = False
+                    for m in k.methods.values():
+                        for n in _walk_no_nested(m.node):
+                            if isinstance(n, ast.Attribute) and isinstance(n.ctx, ast.Store) \
+                                    and n.attr == attr and isinstance(n.value, ast.Name) \
+                                    and n.value.id == 'self':
+                                found = True
+                    cache[key] = found
+                if cache[key] and (k.name, attr) not in self.attr_types:
+                    return True
+        return False
 
     def resolve_call(self, call, f, local_types=None):
         """Resolved callees (FuncInfo list) of an ast.Call inside function f.
